@@ -102,10 +102,20 @@ def replay(MIN, SIZE, J, with_close, schedule, label, model_lines=()):
     execs = [0] * J
     detail = {"steps": 0, "max_members": 0}
 
+    close_done = threading.Event()
+    late_starts = []
+
     def mkjob(j):
         def job():
+            if close_done.is_set():
+                late_starts.append(j)       # a job that starts after close() has returned
             execs[j] += 1
         return job
+
+    def run_close():
+        sys.settrace(gate.tracer)
+        pool.close()
+        close_done.set()
     jobs = [mkjob(j) for j in range(J)]
     refused = [False] * J
     accept_err = []
@@ -138,7 +148,7 @@ def replay(MIN, SIZE, J, with_close, schedule, label, model_lines=()):
                 acc.start()
                 started["accept"] = True
             if tname == "closer" and not started["closer"]:
-                closer = threading.Thread(target=lambda: (sys.settrace(gate.tracer), pool.close()), daemon=True)
+                closer = threading.Thread(target=run_close, daemon=True)
                 closer._vkey = "closer"
                 closer.start()
                 started["closer"] = True
@@ -156,7 +166,7 @@ def replay(MIN, SIZE, J, with_close, schedule, label, model_lines=()):
                     acc.start()
                     started["accept"] = True
                 if tname == "closer" and not started["closer"]:
-                    closer = threading.Thread(target=lambda: (sys.settrace(gate.tracer), pool.close()), daemon=True)
+                    closer = threading.Thread(target=run_close, daemon=True)
                     closer._vkey = "closer"
                     closer.start()
                     started["closer"] = True
@@ -197,6 +207,7 @@ def replay(MIN, SIZE, J, with_close, schedule, label, model_lines=()):
         detail["refused"] = list(refused)
         detail["accept_errors"] = [repr(x) for x in accept_err]
         detail["alive_workers"] = sum(1 for w in workers if w.is_alive())
+        detail["jobs_started_after_close_returned"] = list(late_starts)
     finally:
         gate.release_all()
         threading.settrace(None)
@@ -219,6 +230,8 @@ def replay(MIN, SIZE, J, with_close, schedule, label, model_lines=()):
         rep = any(r and e > 0 for r, e in zip(detail["refused"], detail["execs"]))
     elif "is-served" in label:
         rep = any((not r) and e != 1 for r, e in zip(detail["refused"], detail["execs"]))
+    elif "no-job-starts-after-close" in label:
+        rep = bool(late_starts)
     elif "internal-error" in label:
         rep = bool(detail["accept_errors"])
     elif "exits" in label:
